@@ -1326,8 +1326,30 @@ public:
                         break;
                     }
                     case Intrinsic::memcpy: case Intrinsic::memmove: {
-                        Val d = op(s, cb.getArgOperand(0)), sr = op(s, cb.getArgOperand(1)), n = op(s, cb.getArgOperand(2));
-                        if (n.sym || d.sym || sr.sym) throw EngineError("symbolic memcpy");
+                        Val d = applyFixed(s, op(s, cb.getArgOperand(0))), sr = applyFixed(s, op(s, cb.getArgOperand(1))), n = op(s, cb.getArgOperand(2));
+                        if (n.sym) throw EngineError("symbolic memcpy length");
+                        if (d.sym || sr.sym) {
+                            // symbolic source and/or destination: one fork per feasible (destination, source) pair, the copy is done with concrete addresses in each
+                            std::vector<uint64_t> ds = d.sym ? feasibleAddrs(s, d, n.c) : std::vector<uint64_t>{d.c};
+                            if (ds.empty()) return "infeasible";
+                            bool first = true; State base = s;
+                            if (auto* inv = dyn_cast<InvokeInst>(&I)) jump(base, inv->getNormalDest());
+                            for (size_t di = 0; di < ds.size(); di++) {
+                                State sd = base;
+                                if (d.sym) { z3::expr q = d.e == ZC.bv_val(ds[di], 64); if (!maybe(sd, q)) continue; addPc(sd, q); fixInputs(sd, &q, true); }
+                                Val sr2 = applyFixed(sd, sr);
+                                std::vector<uint64_t> ss = sr2.sym ? feasibleAddrs(sd, sr2, n.c) : std::vector<uint64_t>{sr2.c};
+                                for (size_t si = 0; si < ss.size(); si++) {
+                                    State o = sd; o.id = nextState++; st.forks++;
+                                    if (sr2.sym) { z3::expr q = sr2.e == ZC.bv_val(ss[si], 64); addPc(o, q); fixInputs(o, &q, true); }
+                                    bulkCopy(o, ds[di], ss[si], n.c);
+                                    work.push_back(std::move(o));
+                                    first = false;
+                                }
+                            }
+                            (void)first;
+                            return "forked";
+                        }
                         bulkCopy(s, d.c, sr.c, n.c);
                         break;
                     }
